@@ -11,6 +11,7 @@ import (
 	"io"
 	"os"
 	"runtime"
+	"path/filepath"
 	"sort"
 	"strconv"
 	"strings"
@@ -342,4 +343,54 @@ func SourcePath(p string) string {
 		}
 	}
 	return p
+}
+
+// SourceFiles lists the non-test .go files of a package directory under /repo as the compiler sees them: files on
+// disk, files an overlay adds, minus files an overlay removes; each entry is the path to READ (the replacement when
+// there is one).  Fact generators that look for a function should look in every file of the package: moving a
+// function to another file of the same package is not a change of behaviour.
+func SourceFiles(dir string) []string {
+	names := map[string]bool{}
+	if ents, err := os.ReadDir(dir); err == nil {
+		for _, e := range ents {
+			names[filepath.Join(dir, e.Name())] = true
+		}
+	}
+	for k, v := range overlayReplace() {
+		if filepath.Dir(k) == dir {
+			names[k] = v != ""
+		}
+	}
+	var out []string
+	for n, present := range names {
+		if !present || !strings.HasSuffix(n, ".go") || strings.HasSuffix(n, "_test.go") {
+			continue
+		}
+		out = append(out, SourcePath(n))
+	}
+	sort.Strings(out)
+	return out
+}
+
+func overlayReplace() map[string]string {
+	path := os.Getenv("VERIF_OVERLAY")
+	if path == "" {
+		for _, f := range strings.Fields(os.Getenv("GOFLAGS")) {
+			if strings.HasPrefix(f, "-overlay=") {
+				path = strings.TrimPrefix(f, "-overlay=")
+			}
+		}
+	}
+	if path == "" {
+		return nil
+	}
+	b, err := os.ReadFile(path)
+	if err != nil {
+		return nil
+	}
+	var ov struct{ Replace map[string]string }
+	if json.Unmarshal(b, &ov) != nil {
+		return nil
+	}
+	return ov.Replace
 }
